@@ -23,12 +23,12 @@ META = {
         "ParentId must be the id recorded for the enclosing context's path (absent at the root). Non-trivial = program "
         "with >=2 concurrent branches whose completion order differs between the two schedules, or >=3 invocations; "
         "distinct = (program shape, the two invocation-outcome patterns)."
-        " Plus a stage in which 2-3 user threads issue steps on ONE context (walk/pct schedules, line-level yield points in threading.py): no two operations may share an identifier."
+        " Plus a stage in which 2-3 user threads issue steps on ONE context (walk/pct schedules, line-level yield points in threading.py): no two operations may share an identifier. Plus LinePreempt sweeps over every executed line of context.py (identifier derivation, step counters) for a parallel and a map whose branch threads derive their identifiers from one shared context; a quarter of the generated cases run with context.py in line mode."
     ),
     "assumptions": ["paths are the interpreter's structural positions; branch contexts are located by (parent path, index from the SDK's branch name)"],
     "budget": {
-        "quick": {"shards": 4, "random_cases": 80, "shared_cases": 70, "min_nontrivial": 30},
-        "thorough": {"shards": 16, "random_cases": 2500, "shared_cases": 1500, "min_nontrivial": 800},
+        "quick": {"shards": 4, "random_cases": 80, "shared_cases": 70, "sweep_limit": 500, "min_nontrivial": 30},
+        "thorough": {"shards": 16, "random_cases": 2500, "shared_cases": 1500, "sweep_limit": 4000, "min_nontrivial": 800},
     },
 }
 
@@ -42,7 +42,7 @@ def cases(draw):
         "backend": draw(G.backend_cfgs()),
         "plan": {"crashes": draw(G.crash_plans(max_crashes=1))},
         "sched": draw(G.schedules()),
-        "line": draw(st.sampled_from([[], [], ["threading"]])),
+        "line": draw(st.sampled_from([[], [], ["threading"], ["context"]])),
         "alt": {"backend": draw(G.backend_cfgs()), "plan": {"crashes": draw(G.crash_plans(max_crashes=2))}, "sched": draw(G.schedules())},
     }
 
@@ -112,4 +112,22 @@ def _shared_stage(ctx):
                      classes=lambda r, c: ["shared-context-threads"], seed_offset=31)
 
 
-install(globals(), props=("C08",), cases=cases, nontrivial=nontrivial, classes=classes, extra_monitors=(pair_monitor,), stages=(_shared_stage,))
+def _sweep_stage(ctx):
+    """One long preemption at every executed source line of context.py (identifier derivation, counters) for maps and
+    parallels whose branch threads derive their identifiers from ONE shared context."""
+    from .c03 import _S
+
+    bases = [
+        ("parallel{step|step|step}", [{"op": "parallel", "branches": [[_S(1)], [_S(2)], [_S(3)]], "cfg": {"completion": {"min": None, "tol": 3, "pct": None}}}]),
+        ("child{map[3]{step}}; step", [{"op": "child", "body": [{"op": "map", "items": [1, 2, 3], "body": [_S(1)], "cfg": {"max_concurrency": None, "completion": {"min": None, "tol": 3, "pct": None}}}]}, _S(9)]),
+    ]
+    for i, (label, body) in enumerate(bases):
+        if ctx.nshards > 1 and i % ctx.nshards != ctx.shard % ctx.nshards:
+            continue
+        base = {"prog": {"body": body}, "backend": {"response": "delta"}, "plan": {"crashes": []}, "line": ["context"]}
+        for order in ("low", "high"):
+            WC.line_preempt_sweep(ctx, base, PROPS, nontrivial=lambda r, c: None, classes=lambda r, c: ["one-long-preemption-at-a-line"],
+                                  limit=ctx.budget.get("sweep_limit", 500), order=order, label=f"one long preemption per line of context.py ({order}): {label}")
+
+
+install(globals(), props=("C08",), cases=cases, nontrivial=nontrivial, classes=classes, extra_monitors=(pair_monitor,), stages=(_shared_stage, _sweep_stage))
